@@ -116,6 +116,24 @@ def work_perms(chunk):
     return col
 
 
+def _strip_prefix(d, L):
+    """the dump of a project whose logs were kept over a restart, without the first L entries (and the clock counted from there)"""
+    def cut(x):
+        if isinstance(x, list):
+            return x[L:]
+        if isinstance(x, dict):
+            return {k: (cut(v) if k.endswith("_log") or k in ("cost", "org_cost") else v) for k, v in x.items()}
+        return x
+
+    out = dict(d)
+    out["time"] = d["time"] - L
+    out["cost"] = d["cost"][L:]
+    out["org_cost"] = d["org_cost"][L:]
+    for grp in ("tasks", "workers", "facilities", "components", "teams", "workplaces"):
+        out[grp] = {oid: cut(e) for oid, e in d[grp].items()}
+    return out
+
+
 def work_hist(chunk):
     """simulate; simulate on one object.  Contamination histories: A.simulate(); A edits; B.simulate() with defaults."""
     col = engines.Collector()
@@ -174,6 +192,32 @@ def work_hist(chunk):
             if d3 != d1:
                 col.violation({"property": "C09", "sig": "C09:forward-run-after-backward-run-on-same-object-differs:due=%s" % due, "kind": "hist", "spec": spec, "opts": opts, "hist": "back(due=%s,rev=%s);sim" % (due, rev),
                                "detail": {"first_difference": first_diff(d1, d3) if not d3.startswith("ERR") else d3}})
+        # (1c) a run stopped at step k, then started again: with everything reset it must equal the reference; with the states
+        #      reset and the logs kept, what is appended to the logs must be the reference run (absence-free models: nothing depends on absolute time)
+        ref_d = json.loads(d1)
+        for k in (1, 2, 3):
+            for keep_logs in (False, True):
+                if keep_logs and opts.get("absence"):
+                    continue
+                mo = runner.prepare(spec, opts)
+                try:
+                    mo.project.simulate(**dict(runner.sim_kwargs(opts), max_time=k))
+                    L = len(mo.project.cost_list)
+                    if keep_logs:
+                        mo.project.simulate(**dict(runner.sim_kwargs(opts), initialize_state_info=True, initialize_log_info=False, max_time=kw["max_time"] + L))
+                        got = _strip_prefix(json.loads(jdump(mo)), L)
+                    else:
+                        mo.project.simulate(**runner.sim_kwargs(opts))
+                        got = json.loads(jdump(mo))
+                except Exception as e:
+                    got = "ERR:" + repr(e)
+                col.evaluations += 2
+                col.checks["c09.stop-then-restart"] += 1
+                col.transitions.add(hash((key, "stop;restart", k, keep_logs)))
+                if got != ref_d:
+                    col.violation({"property": "C09", "sig": "C09:run-started-again-after-a-stop-differs:%s" % ("logs-kept" if keep_logs else "everything-reset"), "kind": "hist", "spec": spec, "opts": opts,
+                                   "hist": "sim(max_time=%d);sim(state reset, logs %s)" % (k, "kept" if keep_logs else "reset"),
+                                   "detail": {"first_difference": first_diff(json.dumps(ref_d, sort_keys=True), json.dumps(got, sort_keys=True)) if not isinstance(got, str) else got}})
         # (2) rebuilt model with the library's own classes (id()-hashed, new addresses), twice
         junk = [object() for _ in range(17)]
         e1 = runner.run(spec, dict(opts, plain=True, phases=()))
